@@ -372,6 +372,19 @@ def r06i(ctx, run):
     c09.r09k(ctx, run)
 
 
+def r06j(ctx, run):
+    """accepted but unbuildable: every cast the checker accepts is one cast_into_memory can build (shared with C07 R07.h) - the other way ends in an
+    assertion of the code generator, i.e. a compiler crash"""
+    import c07
+    c07.r07h(ctx, run)
+
+
+def r06k(ctx, run):
+    """== / != on aggregates that the checker accepts are built without reaching an unreachable!() or a filled block (shared with C07 R07.i)"""
+    import c07
+    c07.r07i(ctx, run)
+
+
 def r06f(ctx, run):
     """input_snippet is total: evaluated from its source for every shape of (file length, first line, span, lines after the span) that its
     arithmetic distinguishes and for every pair of columns a position can have (0 ..= line length: the position of the newline / end of
@@ -541,6 +554,8 @@ def rules(ctx):
         Rule("R06.d", "const evaluation sites that panic without a value only see kinds const_data can evaluate (classifier vs evaluator, belief/use)", 3, r06d),
         Rule("R06.e", "the renderer's inclusive end position never precedes the start (empty ranges)", 2, r06e),
         Rule("R06.i", "tables filled while a statement is inferred survive the interruptions of the body's inference (shared with C09 R09.k)", 1, r06i),
+        Rule("R06.j", "every cast the checker accepts is one the code generator can build (shared with C07 R07.h)", 100, r06j),
+        Rule("R06.k", "every == / != the checker accepts on aggregates is built (shared with C07 R07.i)", 60, r06k),
         Rule("R06.h", "variants of one enum get pairwise distinct discriminants (a duplicate panics Cranelift's Switch; shared with C11 R11.d)", 1, r06h),
         Rule("R06.g", "a data object is defined once: fresh name or memoised creation at every create_global_data site", 4, r06g),
         Rule("R06.f", "the snippet renderer is total: no unsigned subtraction below zero and no slice beyond a line, for every range shape and column (newline position included)", 1, r06f),
